@@ -67,6 +67,7 @@ theorem FI.setPend {ex' : Option Nat} {s' : BSt} (h : FI ex pf s) (a : Nat) (p' 
     flgP := fun f hf => by
       obtain ⟨i, st, h1, h2⟩ := h.flgP f hf
       exact ⟨i, st, by rw [(hth i).pop]; exact h1, h2⟩
+    popFlag := fun i => by rw [(hth i).pop, hflags]; exact h.popFlag i
     rem := fun gf hgf => by
       rw [hrem] at hgf
       obtain ⟨i, st, h1, h2⟩ := h.rem gf hgf
@@ -188,6 +189,7 @@ theorem FI.enq {a : Nat} (h : FI (some a) pf s) (ci : Nat) (st : Stmt) (hfr : Fr
     flgP := fun g hg => by
       obtain ⟨i, r, h1, h2⟩ := h.flgP g hg
       exact ⟨i, r, by rw [hpopd]; exact h1, h2⟩
+    popFlag := fun i => by rw [hpopd]; exact h.popFlag i
     rem := fun gf hgf => by
       obtain ⟨i, r, h1, h2⟩ := h.rem gf hgf
       exact ⟨i, r, hacc i r h1, h2⟩
